@@ -174,7 +174,7 @@ def check(ctx):
     ctx.need("R01-e", create, "_spawn call sites in create_task/start", n_calls, 3)
     refs = []
     for rel, tree in ctx.repo.non_trio_modules().items():
-        for n in ast.walk(tree):
+        for n in ctx.live_walk(tree):
             if isinstance(n, ast.Attribute) and n.attr == "_spawn" and isinstance(n.ctx, ast.Load):
                 refs.append((ctx.repo.func_of(n), rel, n))
     for f, rel, n in refs:
